@@ -121,6 +121,9 @@ func (x *Exec) zeroSlots(t types.Type, out []Val) []Val {
 		if u.Info()&types.IsString != 0 {
 			return append(out, S{isStr: true, esz: 1})
 		}
+		if u.Kind() == types.UnsafePointer {
+			return append(out, P{})
+		}
 		w := intWidth(t)
 		if w < 0 {
 			panic(fmt.Sprintf("zero of %v", t))
